@@ -513,8 +513,12 @@ def truth(v: V):
         return z3.BoolVal(False)
     if isinstance(t, TOpt):
         return z3.And(z3.Not(v.zs[0]), truth(opt_val(v)))
-    if isinstance(t, (TRef, TOpaque)):
+    if isinstance(t, TRef):
         return z3.BoolVal(True)
+    if isinstance(t, TOpaque):
+        # truthiness of a value we know nothing about: an uninterpreted predicate of the value
+        return z3.Function("truth_" + t.nm.replace(".", "_").replace(":", "_").replace("$", "_"), zsort(t),
+                           z3.BoolSort())(v.z)
     if isinstance(t, TSet):
         return v.zs[0] != z3.K(zsort(t.elem), z3.BoolVal(False))
     if isinstance(t, TMap):
